@@ -105,6 +105,12 @@ inline void gen_arg(const Arg & a, Rng & r, std::vector<double> & out)
       if (r.below(4) == 0)
         for (int i = 0; i < 4; ++i) out[static_cast<size_t>(a.n - 4 + i)] *= -1;
     }
+  } else if (a.kind == "sq") {
+    // squared angle, stratified around the switch
+    for (auto & v : out) {
+      double x = strat_angle(r);
+      v        = x * x;
+    }
   } else {
     for (auto & v : out) v = strat_lin(r);
   }
